@@ -12,10 +12,12 @@ import Pbc.Desc
   Axioms: `bv_decide` adds one `…_native.bv_decide.ax_*` axiom per theorem (trust in Lean's
   compiled LRAT checker + the bundled SAT solver); listed by the audit.
 -/
+set_option maxRecDepth 100000
+set_option maxHeartbeats 2000000
 namespace Pbc.Refine
 open Pbc.Extract Pbc.BvSpec
 
-macro "leaf_bv" : tactic => `(tactic| (simp only [pbc_leaf, pbc_spec]; bv_decide))
+macro "leaf_bv" : tactic => `(tactic| (simp -zeta only [pbc_leaf, pbc_spec]; bv_decide))
 
 /-! ### sizes -/
 theorem get_tag_size_spec (n : BitVec 32) :
@@ -97,13 +99,14 @@ theorem scan_varint_spec (len : BitVec 32) (d : BitVec 80) :
     r.ok = true ∧ r.ret = BitVec.setWidth 32 (vscan (umin (BitVec.setWidth 64 len) 10) d) := by leaf_bv
 
 /-- key decoder: looks at no more than min(len,5) bytes; returns 0 exactly when the first byte's
-    field-number bits are all zero or no terminator is found; otherwise the key length, the
-    field number (key >> 3, 32 bits) and the wire type (low 3 bits). -/
+    field-number bits are all zero, no terminator is found, or the decoded field number is 0;
+    otherwise the key length, the field number (key >> 3, 32 bits) and the wire type (low 3 bits). -/
 theorem parse_tag_and_wiretype_spec (len : BitVec 64) (d : BitVec 80) (t0 : BitVec 32) (w0 : BitVec 8)
     (h1 : BitVec.ule 1 len) :
     let r := parse_tag_and_wiretype len d 0 (umin len 10) t0 w0
     let n := vscan (umin len 5) d
-    r.ret = (bif (byteAt d 0 &&& 0xf8) == 0 then 0 else n) ∧
+    r.ret = (bif (byteAt d 0 &&& 0xf8) == 0 then 0 else
+             bif BitVec.setWidth 32 (vdec n d >>> 3) == 0 then 0 else n) ∧
     (r.ret != 0 → r.tag_out_val = BitVec.setWidth 32 (vdec n d >>> 3) ∧ r.wiretype_out_val = (byteAt d 0 &&& 7)) := by leaf_bv
 
 /-- ... and does so without reading past `len` bytes and without undefined behaviour
